@@ -203,7 +203,7 @@ def nx23(F, R):
                     continue
                 if fct[1] == "<=" and is_pos(l) and strip_sites(r) == strip_sites(rid):
                     continue
-            if w.body.asserted(fct, w.site):
+            if asserted_precondition(w.body, fct, w.site):
                 continue
             badg.append(show(fct, b))
         if badg:
